@@ -756,3 +756,222 @@ def compare_trace(run, model, finder, label):
            'anomalies': []}
     case = {'part': 'finder-trace', 'label': label, 'request': req}
     return case, impl, mod, res
+
+
+# ==============================================================================================
+# A. data store
+# ==============================================================================================
+
+class _Clock:
+    def __init__(self):
+        self.t = 0
+
+    def time(self):
+        return self.t
+
+
+def _ds_pool(m_peers, m_keys):
+    peers = []
+    for i in range(m_peers):
+        nid = constants.digest(b'ds-peer-%d' % i)
+        # every third peer is created twice with different tcp ports: equal by the dataclass's equality
+        peers.append(make_kademlia_peer(nid, ip_of(10 + i), 4444, 3333 + (i % 3)))
+    keys = [constants.digest(b'ds-key-%d' % i) for i in range(m_keys)]
+    return peers, keys
+
+
+def gen_ds_ops(rng, length):
+    """op lists with times placed on and around the expiry boundary of earlier announcements"""
+    m_peers, m_keys = rng.choice([(2, 1), (4, 2), (6, 3), (12, 2)])
+    ops, now, stamps = [], rng.randrange(0, 1000), []
+    for _ in range(length):
+        c = rng.random()
+        if stamps and c < 0.35:
+            base = rng.choice(stamps) + EXPIRY + rng.choice([-2, -1, 0, 1, 2])
+            now = max(now, base) if rng.random() < 0.85 else now
+        elif c < 0.6:
+            now += rng.choice([0, 1, 5, 60, 719, 720, 721, 3600, 40000])
+        k, p = rng.randrange(m_keys), rng.randrange(m_peers)
+        c = rng.random()
+        if c < 0.35:
+            ops.append(['add', k, p, now])
+            stamps.append(now)
+        elif c < 0.65:
+            ops.append(['get', k, now])
+        elif c < 0.75:
+            ops.append(['expire', now])
+        elif c < 0.85:
+            ops.append(['bad', p, now])
+        elif c < 0.9:
+            ops.append(['good', p, now])
+        elif c < 0.95:
+            ops.append(['has', k, now])
+        else:
+            ops.append(['contacts', now])
+    return {'part': 'ds', 'peers': m_peers, 'keys': m_keys, 'ops': ops}
+
+
+def run_ds_case(run, model, case):
+    peers, keys = _ds_pool(case['peers'], case['keys'])
+    clock = _Clock()
+    pm = PeerManager(clock)
+    ds = DictDataStore(clock, pm)
+    num = {}
+    for i, p in enumerate(peers):
+        num.setdefault(p, i)
+
+    def bad_now():
+        return sorted({num[p] for p in peers if pm.peer_is_good(p) is False})
+
+    spec = {}                 # the property's own abstract record: (key, peer) -> time stored
+    mops, impl_outs, problems = [], [], []
+    for op in case['ops']:
+        kind = op[0]
+        clock.t = op[-1]
+        now = op[-1]
+        if kind == 'add':
+            _, k, p, _ = op
+            ds.add_peer_to_blob(peers[p], keys[k])
+            spec[(k, num[peers[p]])] = now
+            mops.append(['add', k, num[peers[p]], now])
+        elif kind == 'bad':
+            pm.report_failure(peers[op[1]].address, peers[op[1]].udp_port)
+            pm.report_failure(peers[op[1]].address, peers[op[1]].udp_port)
+        elif kind == 'good':
+            pm.report_last_replied(peers[op[1]].address, peers[op[1]].udp_port)
+        elif kind == 'get':
+            bad = bad_now()
+            k = op[1]
+            got = [num[p] for p in (ds.get_peers_for_blob(keys[k]) if ds.has_peers_for_blob(keys[k]) else [])]
+            impl_outs.append(got)
+            mops.append(['get', k, now, bad])
+            want = {p for (kk, p), ts in spec.items() if kk == k and now < ts + EXPIRY and p not in bad}
+            if set(got) != want or len(got) != len(set(got)):
+                problems.append(f'get(key {k}) at t={now}: returned {sorted(got)}, stored-and-live-and-not-bad = {sorted(want)}')
+        elif kind == 'expire':
+            bad = bad_now()
+            ds.removed_expired_peers()
+            mops.append(['expire', now, bad])
+            for kp in [kp for kp, ts in spec.items() if ts + EXPIRY < now or kp[1] in bad]:
+                del spec[kp]
+        elif kind == 'has':
+            impl_outs.append(bool(ds.has_peers_for_blob(keys[op[1]])))
+            mops.append(['has', op[1]])
+        elif kind == 'contacts':
+            impl_outs.append(sorted(num[p] for p in ds.get_storing_contacts()))
+            mops.append(['contacts'])
+    store = [[keys.index(k), [[num[p], ts] for p, ts in es]] for k, es in ds._data_store.items()]
+    res = model.call('ds', ops=mops)
+    mouts = [sorted(o) if (isinstance(o, list) and ['contacts'] in mops and False) else o for o in res['outs']]
+    # contacts are a set: compare sorted
+    qi = [m for m in mops if m[0] in ('get', 'has', 'contacts')]
+    mouts = [sorted(o) if q[0] == 'contacts' else o for q, o in zip(qi, res['outs'])]
+    return {'outs': impl_outs, 'store': store}, {'outs': mouts, 'store': res['store']}, problems
+
+
+# ==============================================================================================
+# B1. findValue server side: pages of the real KademliaRPC.find_value
+# ==============================================================================================
+
+def run_pages_case(run, model, case):
+    n, variant, seed = case['n'], case['variant'], case['seed']
+    loop = VirtualLoop()
+    try:
+        node_id = constants.digest(b'storing-%d' % seed)
+        proto = KademliaProtocol(loop, PeerManager(loop), node_id, '1.2.3.4', 4444, 3333)
+        key = constants.digest(b'pages-key-%d' % seed)
+        stored = []
+        for i in range(n):
+            p = make_kademlia_peer(constants.digest(b'pg-%d-%d' % (seed, i)), ip_of(20 + i), 4444, 3333 + i % 50)
+            proto.data_store.add_peer_to_blob(p, key)
+            stored.append(p)
+        requester = make_kademlia_peer(constants.digest(b'requester-%d' % seed), '1.2.9.9', 4444, None)
+        if variant == 'requester_is_stored' and stored:
+            requester = stored[len(stored) // 2]
+        if variant == 'has_blob':
+            proto.data_store.completed_blobs.add(key.hex())
+        # independent expectation
+        exp = [bytes(p.compact_address_tcp()) for p in stored
+               if not requester.tcp_port or bytes(p.compact_address_tcp()) != bytes(requester.compact_address_tcp())]
+        if len(exp) < K and variant == 'has_blob':
+            exp.append(bytes(proto.node_rpc.compact_address()))
+        number = {c: i + 1 for i, c in enumerate(exp)}
+        shuffled = list(exp)
+        if len(shuffled) > K:
+            random.Random(node_id).shuffle(shuffled)
+        m = len(exp)
+        impl, mod, problems, seen = [], [], [], []
+        last = (m + K - 1) // K + 1
+        for page in list(range(0, last + 1)) + [-1]:
+            resp = proto.node_rpc.find_value(requester, key, page)
+            items = [number.get(bytes(c), 0) for c in resp.get(key, [])]
+            impl.append({'page': page, 'items': items, 'pages': resp[b'p'], 'contacts': b'contacts' in resp,
+                         'token': len(resp[b'token'])})
+            eff = max(page, 0)
+            r = model.call('serve_page', l=[number[c] for c in shuffled], page=eff)
+            mod.append({'page': page, 'items': r['items'], 'pages': r['pages'], 'contacts': eff == 0, 'token': 48})
+            if page >= 0:
+                seen.extend(items)
+        if sorted(seen) != list(range(1, m + 1)):
+            problems.append(f'{m} peers stored: pages 0..{last} return {len(seen)} entries, {len(set(seen))} distinct')
+        if impl and impl[0]['pages'] * K < m:
+            problems.append(f'{m} peers but only {impl[0]["pages"]} pages announced')
+        return impl, mod, problems
+    finally:
+        loop.close()
+
+
+# ==============================================================================================
+# C. compact addresses
+# ==============================================================================================
+
+NETS = ['0.0.0.0/8', '10.0.0.0/8', '127.0.0.0/8', '169.254.0.0/16', '172.16.0.0/12', '192.0.0.0/29', '192.0.0.170/31',
+        '192.0.2.0/24', '192.168.0.0/16', '198.18.0.0/15', '198.51.100.0/24', '203.0.113.0/24', '240.0.0.0/4',
+        '224.0.0.0/4', '100.64.0.0/10', '192.88.99.0/24', '255.255.255.255/32']
+
+
+def boundary_ips():
+    out = set()
+    for net in NETS:
+        nw = ipaddress.ip_network(net)
+        lo, hi = int(nw.network_address), int(nw.broadcast_address)
+        for v in (lo - 1, lo, lo + 1, hi - 1, hi, hi + 1):
+            if 0 <= v < 2 ** 32:
+                out.add(v)
+    out.update([0x01020304, 0x08080808, 0xdfffffff, 0xe0000000, 0xc0000008, 0xc00000a9, 0xc00000ac])
+    return sorted(out)
+
+
+def independent_public(ip_int):
+    a = ipaddress.ip_address(ip_int)
+    return not any(a in ipaddress.ip_network(n) for n in NETS)
+
+
+def run_compact_case(run, model, case):
+    bs = bytes.fromhex(case['bs'])
+    try:
+        peer = decode_tcp_peer_from_compact_address(bs)
+        impl = 'ok'
+    except ValueError:
+        peer, impl = None, 'invalid'
+    except Exception:
+        peer, impl = None, 'crash'
+    mod = model.call('decode', bs=bs.hex())
+    problems = []
+    if impl == 'ok':
+        port = int.from_bytes(bs[4:6], 'big')
+        if not (len(bs) == 54 and 1024 <= port <= 65535 and independent_public(int.from_bytes(bs[:4], 'big'))):
+            problems.append(f'accepted a compact address that is not a well-formed public one: {bs.hex()}')
+    return impl, mod, problems
+
+
+def gen_compacts(rng, n):
+    ips = boundary_ips()
+    for _ in range(n):
+        ip = rng.choice(ips) if rng.random() < 0.6 else rng.randrange(2 ** 32)
+        port = rng.choice([0, 1, 80, 1023, 1024, 1025, 3333, 65534, 65535]) if rng.random() < 0.6 else rng.randrange(65536)
+        idlen = rng.choice([48] * 6 + [0, 1, 47, 49, 60])
+        b = ip.to_bytes(4, 'big') + port.to_bytes(2, 'big') + bytes(rng.randrange(256) for _ in range(idlen))
+        if rng.random() < 0.08:
+            b = b[:rng.randrange(0, 8)]
+        yield b
